@@ -7,7 +7,7 @@ constructor/setter paths; duration grid (int, float, timedelta) compared with
 exact rational arithmetic; JSON form validated against the published schema and
 round-tripped for a data catalogue and several id kinds."""
 import json
-from datetime import datetime, timedelta, timezone
+from datetime import datetime, timedelta, timezone, tzinfo
 from fractions import Fraction
 
 import jsonschema
@@ -20,7 +20,7 @@ from mc.lattice import chunked
 UTC = timezone.utc
 OFFSETS_MIN = (-14 * 60, -9 * 60 - 30, -1, 0, 5 * 60 + 45, 14 * 60)
 BOUNDS = {
-    "quick": {"microseconds": "all 10^6 values at one base second via datetime and via ISO string (alternating UTC and +05:45)", "anchors": "noon of one day per year 1970..2100 + 2^k s (k=20..31) and +-1 + 2^49,2^50,2^51 us binade edges and neighbours + 2100-12-31T23:59:59", "offsets_min": list(OFFSETS_MIN), "representations": ["aware datetime", "isoformat T", "isoformat space", "Z / +00:00 forms"], "paths": ["constructor", "timestamp setter"], "durations": "ints 0..3 + 86400 + 30 d; timedeltas at us granularity; floats k*1e-6 for k<=2000 and a catalogue"},
+    "quick": {"microseconds": "all 10^6 values at one base second via datetime and via ISO string (alternating UTC and +05:45)", "anchors": "noon of one day per year 1970..2100 + 2^k s (k=20..31) and +-1 + 2^49,2^50,2^51 us binade edges and neighbours + 2100-12-31T23:59:59", "offsets_min": list(OFFSETS_MIN), "representations": ["aware datetime", "isoformat T", "isoformat space", "Z / +00:00 forms"], "paths": ["constructor", "timestamp setter"], "dst_fold": "aware datetimes in a zone with a repeated hour (fold 0/1) around the switch", "durations": "ints 0..3 + 86400 + 30 d; timedeltas at us granularity; floats k*1e-6 for k<=2000 and a catalogue"},
     "thorough": {"microseconds": "all 10^6 via datetime AND via ISO string, at two base seconds", "rest": "as quick"},
 }
 RULE = (
@@ -34,6 +34,67 @@ ASSUMPTIONS = [
 ]
 _G = {}
 US = timedelta(microseconds=1)
+
+
+class FoldTZ(tzinfo):
+    """A zone with one DST end: wall times 02:00-03:00 on 2021-10-31 occur twice; before the
+    switch (and for fold=0 inside the repeated hour) the offset is +02:00, afterwards +01:00.
+    Self-contained (no tzdata needed)."""
+
+    SWITCH = datetime(2021, 10, 31, 2, 0, 0)  # wall clock (standard time) at which the repeated hour starts
+
+    def utcoffset(self, dt):
+        naive = dt.replace(tzinfo=None)
+        if naive < self.SWITCH:
+            return timedelta(hours=2)
+        if naive < self.SWITCH + timedelta(hours=1):
+            return timedelta(hours=1) if dt.fold else timedelta(hours=2)
+        return timedelta(hours=1)
+
+    def dst(self, dt):
+        return self.utcoffset(dt) - timedelta(hours=1)
+
+    def tzname(self, dt):
+        return "FOLD"
+
+    def fromutc(self, dt):
+        # dt is in UTC with tzinfo=self
+        naive = dt.replace(tzinfo=None)
+        std = naive + timedelta(hours=1)
+        dstt = naive + timedelta(hours=2)
+        if dstt < self.SWITCH + timedelta(hours=1) and naive < datetime(2021, 10, 31, 1, 0, 0):
+            return dstt.replace(tzinfo=self)
+        r = std.replace(tzinfo=self)
+        if self.SWITCH <= std < self.SWITCH + timedelta(hours=1):
+            r = r.replace(fold=1)
+        return r
+
+
+def _unit_fold(_):
+    """aware datetimes in a zone with a repeated hour, fold=0 and fold=1, constructor and setter"""
+    u = Unit()
+    tz = FoldTZ()
+    for minute in (0, 1, 30, 59):
+        for hour in (1, 2, 3):
+            for fold in (0, 1):
+                for us in (0, 1, 999, 123456, 999999):
+                    dt = datetime(2021, 10, 31, hour, minute, 7, us, tzinfo=tz, fold=fold)
+                    off = tz.utcoffset(dt)
+                    want = S.us_of((dt.replace(tzinfo=None) - off).replace(tzinfo=UTC))
+                    for path in ("ctor", "setter"):
+                        if path == "ctor":
+                            e = Event(timestamp=dt, duration=0, data={})
+                        else:
+                            e = Event(timestamp=datetime(2000, 1, 1, tzinfo=UTC), duration=0, data={})
+                            e.timestamp = dt
+                        u.evaluations += 1
+                        u.states += 1
+                        u.transitions += 1
+                        u.nontrivial += 1
+                        for sym, det in check_ts(e.timestamp, want, f"fold-zone {dt.isoformat()} fold={fold} via {path}"):
+                            u.violation(f"event:{sym}:dst-fold/{path}", det, {"kind": "fold"}, size=hour * 100 + minute + fold)
+    u.sample({"kind": "dst fold", "wall_time": "2021-10-31T02:30:07.123456", "fold": [0, 1], "zone": "offset +02:00 before / +01:00 after a repeated hour"})
+    return u.result()
 
 
 def floor_ms_us(us):
@@ -201,6 +262,8 @@ def _unit_json(_):
                     n += 1
                     e = Event(id=i, timestamp=ts, duration=timedelta(microseconds=du), data=json.loads(json.dumps(data)))
                     probs = []
+                    if e.id != i or (i is not None and type(e.id) is not type(i)):
+                        probs.append(("constructed-event-lost-its-id", f"Event(id={i!r}).id == {e.id!r}"))
                     try:
                         jd = e.to_json_dict()
                         errs = sorted(validator.iter_errors(jd), key=str)
@@ -252,7 +315,7 @@ def _unit_dur(items):
 
 
 def _dispatch(x):
-    return {"us": _unit_us, "anchor": _unit_anchor, "json": _unit_json, "dur": _unit_dur}[x[0]](x[1])
+    return {"us": _unit_us, "anchor": _unit_anchor, "json": _unit_json, "dur": _unit_dur, "fold": _unit_fold}[x[0]](x[1])
 
 
 def run(ctx):
@@ -270,6 +333,7 @@ def run(ctx):
     for ch in chunked(duration_grid(), ctx.workers):
         units.append(("dur", ch))
     units.append(("json", None))
+    units.append(("fold", None))
     agg = Agg()
     for r in ctx.pmap(_dispatch, units):
         agg.add(r)
@@ -292,5 +356,5 @@ def run_case(ctx, case):
     if k == "dur":
         probs, e = check_duration(case["dkind"], case["v"], case["path"])
         return {"stored": str(e.duration) if e else None, "violations": [list(p) for p in probs]}
-    r = _unit_json(None)
+    r = (_unit_fold if k == "fold" else _unit_json)(None)
     return {"violations": [[v["key"], v["what"]] for v in r["violations"]]}
